@@ -199,21 +199,42 @@ pub fn run_backend(backend: u8, run: &RunCfg, case: u64, stop_after: Option<usiz
 /// Several chains through the REAL parallel sampler into Zarr, compared with the HashMap backend of the same run (same seed): per-draw
 /// statistics and the divergence event arrays of EVERY chain. The chains have different divergence patterns (even chains diverge during
 /// warmup, odd chains during sampling), so the event arrays are sized by different chains in the two phases.
-fn multi_chain_zarr(seed: u64, case: u64, rep: &mut Report) {
+pub fn multi_chain_zarr(seed: u64, case: u64, rep: &mut Report, flush_mode: bool) {
     use crate::ctl;
     let mut r = Sm::new(seed, "C14-multi", case);
     let cfg = ctl::Cfg { gen_seed: seed, gen_tier: "quick".into(), preset: 0, seed: r.next() | 1, sched: 0, num_chains: 2 + r.below(2) as usize, num_cores: 2,
-        num_tune: 10 + r.below(8), num_draws: 10 + r.below(8), dim: 2, script: vec![], end_abort: false, poll_finish: false, zero_poll: false,
+        num_tune: 10 + r.below(8), num_draws: 10 + r.below(8), dim: 2, script: vec![], end_abort: false, poll_finish: flush_mode, zero_poll: false, flush_after_finish: flush_mode,
         failure: ctl::Failure::Split { x: 60 + r.below(80), period: 3 + r.below(3) } };
     let settings = || { let mut s = nuts_rs::DiagNutsSettings::default(); s.num_tune = cfg.num_tune; s.num_draws = cfg.num_draws; s.num_chains = cfg.num_chains; s.seed = cfg.seed; s.maxdepth = 4; s.store_divergences = case % 2 == 0; s };
-    let replay = json!({"kind": "c14multi", "seed": seed, "case": case});
+    let replay = json!({"kind": "c14multi", "seed": seed, "case": case, "flush_mode": flush_mode});
     rep.evaluations += 1;
     rep.hit("multi_chain_zarr");
     let reference = ctl::run(&cfg, settings(), HashMapConfig::new(), ctl::hashmap_maps);
     let Some(refmaps) = reference.traces else { rep.notes.push(format!("multi-chain reference run did not finish: {}", reference.result)); return; };
     let store = Arc::new(zarrs::storage::store::MemoryStore::new());
-    let z = ctl::run(&cfg, settings(), ZarrConfig::new(store.clone()).with_chunk_size(*r.pick(&[3u64, 7, 100])), |_| vec![]);
+    let chunk = *r.pick(&[3u64, 7, 100]);
+    // C15 (flush_mode): once every chain has finished, Sampler::flush() is called and the store is read BEFORE anything is finalised
+    let flushed: Arc<std::sync::Mutex<Option<Option<String>>>> = Arc::new(std::sync::Mutex::new(None));
+    if flush_mode {
+        let (st2, ref2, fl2) = (store.clone(), refmaps.clone(), flushed.clone());
+        *ctl::AFTER_FLUSH.lock().unwrap() = Some(Box::new(move || { *fl2.lock().unwrap() = Some(compare_store(st2, &ref2, &mut |_| {})); }));
+    }
+    let z = ctl::run(&cfg, settings(), ZarrConfig::new(store.clone()).with_chunk_size(chunk), |_| vec![]);
+    *ctl::AFTER_FLUSH.lock().unwrap() = None;
     if z.result != "trace" { rep.violation("zarr.multi_chain_run", &format!("parallel run into Zarr ended with '{}'", z.result), replay); return; }
+    if flush_mode {
+        rep.hit("sampler_flush_after_completion");
+        match flushed.lock().unwrap().take() {
+            Some(Some(msg)) => { rep.violation("zarr.sampler_flush", &format!("after Sampler::flush() (all chains finished, chunk size {chunk}, nothing finalised): {msg}"), replay.clone()); return; }
+            Some(None) => {}
+            None => rep.notes.push("flush callback did not run".into()),
+        }
+    }
+    if let Some(msg) = compare_store(store.clone(), &refmaps, &mut |h| rep.hit(h)) { rep.violation("zarr.multi_chain", &msg, replay); }
+}
+
+/// every per-draw statistic and the two identifying divergence event statistics of every chain, Zarr store vs HashMap trace of the same run
+fn compare_store(store: Arc<zarrs::storage::store::MemoryStore>, refmaps: &[(BTreeMap<String, Vec<Cell>>, BTreeMap<String, Vec<Cell>>)], hit: &mut dyn FnMut(&str)) -> Option<String> {
     let cell_b = |c: &Cell| matches!(c, Cell::B(true));
     for (chain, (st, _dr)) in refmaps.iter().enumerate() {
         let (Some(tun), Some(div)) = (st.get("tuning"), st.get("diverging")) else { continue };
@@ -221,7 +242,7 @@ fn multi_chain_zarr(seed: u64, case: u64, rep: &mut Report) {
         let n_s = tun.len() - n_w;
         let dw = (0..tun.len()).filter(|i| cell_b(&tun[*i]) && cell_b(&div[*i])).count();
         let ds = (0..tun.len()).filter(|i| !cell_b(&tun[*i]) && cell_b(&div[*i])).count();
-        if dw > 0 || ds > 0 { rep.hit("multi_chain_zarr.chain_with_divergences"); }
+        if dw > 0 || ds > 0 { hit("multi_chain_zarr.chain_with_divergences"); }
         for (name, cells) in st.iter() {
             // rows per phase: one per draw for the always-present statistics, one per divergence for the two divergence event statistics that every divergence carries (the optional ones hold
             // fill values in Zarr where HashMap holds nothing)
@@ -232,19 +253,20 @@ fn multi_chain_zarr(seed: u64, case: u64, rep: &mut Report) {
             for (group, start, rows) in [("/warmup_sample_stats", 0usize, rw), ("/sample_stats", rw, rs)] {
                 let path = format!("{group}/{name}");
                 match zarr_read(store.clone(), &path, chain as u64, rows) {
-                    Err(e) => { rep.violation("zarr.multi_chain", &format!("chain {chain}: {e} (warmup/sampling divergences of this chain: {dw}/{ds})"), replay.clone()); return; }
+                    Err(e) => return Some(format!("chain {chain}: {e} (warmup/sampling divergences of this chain: {dw}/{ds})")),
                     Ok((got, _)) => { let flat: Vec<Cell> = got.into_iter().flatten().collect();
-                        if flat[..] != cells[start * per..(start + rows) * per] { rep.violation("zarr.multi_chain", &format!("chain {chain}: {path} differs from the HashMap trace of the same run"), replay.clone()); return; } }
+                        if flat[..] != cells[start * per..(start + rows) * per] { return Some(format!("chain {chain}: {path} differs from the HashMap trace of the same run")); } }
                 }
             }
         }
     }
+    None
 }
 
 pub fn main(tier: &str, seed: u64, outdir: &str) {
     let mut cases = Cases::new();
     let mut rep = Report::new("C14");
-    for case in 0..(if tier == "thorough" { 200 } else { 6 }) { multi_chain_zarr(seed, case, &mut rep); }
+    for case in 0..(if tier == "thorough" { 200 } else { 6 }) { multi_chain_zarr(seed, case, &mut rep, false); }
     let n = if tier == "thorough" { 7000 } else { 84 };
     for case in 0..n {
         let mut r = Sm::new(seed, "C14", case);
@@ -281,7 +303,7 @@ pub fn main(tier: &str, seed: u64, outdir: &str) {
 pub fn replay(v: &serde_json::Value) -> bool {
     if v["kind"] == "c14multi" {
         let mut rep = Report::new("replay");
-        multi_chain_zarr(v["seed"].as_u64().unwrap_or(0), v["case"].as_u64().unwrap_or(0), &mut rep);
+        multi_chain_zarr(v["seed"].as_u64().unwrap_or(0), v["case"].as_u64().unwrap_or(0), &mut rep, v["flush_mode"].as_bool().unwrap_or(false));
         println!("replay: {:?}", rep.violations.iter().map(|v| v["what"].as_str().unwrap_or("").to_string()).collect::<Vec<_>>());
         return !rep.violations.is_empty();
     }
